@@ -291,9 +291,8 @@ Theorem givesCheck_promotion : forall p m, WF p -> legal_spec (abs p) m -> mprom
   givesCheck p m = gives_check_spec (abs p) m.
 Proof. intros p m H Hl Hp. exact (p_main p H m Hl Hp). Qed.
 
-(** non-vacuity: e7-e8=Q checks the king on e1 through the vacated square's line? no - the
-    king on a8 along the rank; d7xe8=N checks the king on g7; b7-b8=R with the king on b1
-    checks along the pawn's own file through the vacated square (third block) *)
+(** non-vacuity: white pawn b7, black king b1: b7-b8=R checks along the pawn's own file through
+    the vacated square b7 (third block of givesCheck); b7-b8=N does not check *)
 Definition promoBoard : list piece :=
   [0;BKING;0;0;0;0;0;WKING;  0;0;0;0;0;0;0;0;  0;0;0;0;0;0;0;0;  0;0;0;0;0;0;0;0;
    0;0;0;0;0;0;0;0;  0;0;0;0;0;0;0;0;  0;WPAWN;0;0;0;0;0;0;  0;0;0;0;0;0;0;0].
